@@ -90,6 +90,11 @@ def apply(module, d):
                     arr[:] = [lo + (i * (hi - lo)) // max(1, n - 1) for i in range(n)]
                 elif pat == "alt":
                     arr[:] = [hi if i % 2 else lo for i in range(n)]
+                elif pat == "shift":
+                    delta = 256 if hi > 4096 else 1
+                    arr[:] = [max(lo, min(hi, int(v) + delta)) for v in arr]
+                elif pat == "reverse":
+                    arr[:] = [int(v) for v in reversed(arr)]
     elif k == "mcmap":
         module["payload"]["mappings"][d["i"]][0:3] = list(d["v"])
     elif k == "mcmapx":
